@@ -374,3 +374,6 @@ _EXTRA_MIN_OBS = {'C01': {'stale_reply_then_runt': 40, 'replies_inside_write': 3
 for _p, _m in _EXTRA_MIN_OBS.items():
     PROPS[_p]['min_obs'] = dict(PROPS[_p]['min_obs'])
     PROPS[_p]['min_obs']['quick'] = dict(PROPS[_p]['min_obs'].get('quick', {}), **_m)
+
+# every exported view type must have produced valid instances (a seed the view rejects leaves its getters unexplored)
+PROPS['C01']['min_obs']['quick'] = dict(PROPS['C01']['min_obs']['quick'], **{'views_valid:' + t: 60 for t in ['ARP', 'DHCP4', 'DNS', 'Ether', 'EthernetPause', 'HopByHopExtensionHeader', 'ICMP', 'ICMP4Redirect', 'ICMP6NeighborAdvertisement', 'ICMP6NeighborSolicitation', 'ICMP6Redirect', 'ICMP6RouterAdvertisement', 'ICMP6RouterSolicitation', 'ICMPEcho', 'IEEE1905', 'IP4', 'IP6', 'LLC', 'LLDP', 'RRCP', 'SNAP', 'TCP', 'UDP']})
